@@ -12,6 +12,19 @@ impl<'k> Str<'k> {
     #[verifier::external_body]
     pub fn get(&self) -> (r: &str) ensures r.spec_bytes() == self.bytes() { self.v }
 }
+// constructors / conversions (str.rs:110 new, :125 new_ref, :136 by_ref, :393 to_owned): all keep the text
+impl Str<'static> {
+    #[verifier::external_body]
+    pub const fn new(k: &'static str) -> (r: Self) ensures r.bytes() == k.spec_bytes() { Str { v: k } }
+}
+impl<'k> Str<'k> {
+    #[verifier::external_body]
+    pub const fn new_ref(k: &'k str) -> (r: Str<'k>) ensures r.bytes() == k.spec_bytes() { Str { v: k } }
+    #[verifier::external_body]
+    pub const fn by_ref<'b>(&'b self) -> (r: Str<'b>) ensures r.bytes() == self.bytes() { Str { v: self.v } }
+    #[verifier::external_body]
+    pub fn to_owned(&self) -> (r: Str<'static>) ensures r.bytes() == self.bytes() { unimplemented!() }
+}
 impl<'k> Clone for Str<'k> {
     #[verifier::external_body]
     fn clone(&self) -> (r: Self) ensures r == *self { Str { v: self.v } }
@@ -46,6 +59,19 @@ impl Clone for Formatter {
 //@extract core/src/template.rs / struct Template
 //@rules R1 R2
 //@end
+
+// What a part is, representation aside: its kind, its text or label bytes, and its formatter.
+// Rendering (`part_call`) and equality (`flat`) depend on a part only through this view.
+pub enum PartView { Text(Seq<u8>), Hole(Seq<u8>, Option<Formatter>) }
+pub open spec fn part_view(p: Part) -> PartView {
+    match p.0 {
+        PartKind::Text { value } => PartView::Text(value.bytes()),
+        PartKind::Hole { label, formatter } => PartView::Hole(label.bytes(), formatter),
+    }
+}
+pub open spec fn parts_view(parts: Seq<Part>) -> Seq<PartView> {
+    Seq::new(parts.len(), |i: int| part_view(parts[i]))
+}
 
 impl<'a> TemplateKind<'a> {
     pub open spec fn view(&self) -> Seq<Part<'a>> {
